@@ -154,10 +154,14 @@ func funcSubStrVec(chunk []KVPair, args []Expression, ctx *ExecuteCtx) ([]any, e
 		start := int(toInt(starts[i], 0))
 		length := int(toInt(lengths[i], 0))
 		vlen := len(val)
-		if start > vlen-1 {
+		if start < 0 {
+			start = 0
+		}
+		// The third parameter is the end position (exclusive), not a length
+		length = min(length, vlen)
+		if start > vlen-1 || length <= start {
 			values[i] = ""
 		} else {
-			length = min(length, vlen-start)
 			values[i] = val[start:length]
 		}
 	}
